@@ -169,6 +169,11 @@ func RunDemux(input []byte, cfg DemuxCfg) *DemuxRun {
 			continue
 		}
 		if it.Err != nil && errors.Is(it.Err, astits.ErrNoMorePackets) && it.Data == nil && it.Packet == nil {
+			if cfg.API == "alt" && usePacket {
+				// with mixed calls NextPacket runs dry first while NextData may still flush pending units:
+				// the end of the stream is the first ErrNoMorePackets of NextData
+				continue
+			}
 			run.EOFAt = it.Call
 			if cfg.ExtraAfterEOF == 0 {
 				return run
